@@ -160,10 +160,11 @@ CLAIMED.update({
    text="PARTIAL by design. Proved (Tie A): the handler table of cli.main() is regenerated from pyshacl/cli.py (translator/t3.py: except clauses in order, their exit_code, finally block, final sys.exit, early exits; class table of errors.py) and, over Python's except-dispatch semantics on method resolution orders, "
         "EVERY exception class deriving from Exception ends the command line with status 2 or 3, or 1 for a ValidationFailure whose text is written; status 0 only after a conforming report, status 1 only after a written non-conforming report or validation failure; documented families map to 2/3/1. "
         "Also proved (Tie A, translators t4 / t5): the subclass closures generated from pyshacl/rdfutil/closure.py terminate with a result on every graph (no RecursionError for chains of any length), and the list check generated from ShapesGraph._check_rdf_lists never runs out of fuel and accepts exactly the shapes graphs whose rdf:rest chains all end (ring and rho-shaped lists are a ShapeLoadError; after acceptance every list can be enumerated). "
-        "NOT a theorem: that no undocumented exception class escapes validate(). That half is decided by enumeration on the real code: ~110 hand-written ill-formed shapes graphs (every core parameter with wrong node kinds/datatypes, malformed lists/paths, bad regex, broken or misplaced SPARQL, dangling references, malformed rules/functions/targets/expressions) x options, randomly damaged well-formed shapes graphs, and the same causes through `python -m pyshacl`.",
-   note="Trusted: Coq kernel + vm_compute; translator T3; the dispatch model of coq/Mini/Cli.v (checked against cli.main() run in-process with 21 exception classes). The former findings (cyclic rdf:rest -> rdflib ValueError; 1500-long subclass chain -> RecursionError in rdflib) are repaired in /repo and recorded as fixed. "
+        "Also proved (Tie A, translator t6): the census of every `raise` statement of the modules on the validate() path - each raises a class of the documented families (below ReportableRuntimeError in errors.py, or NotImplementedError) or re-raises what it caught, is handled in the same function, is the signal of a helper every call of which sits in a try catching that class, or is one of the listed guards on Python argument types / code invariants. "
+        "NOT a theorem: that no undocumented exception class escapes validate() through an IMPLICIT raise (a failing expression, an rdflib / re error). That half is decided by enumeration on the real code: ~190 hand-written ill-formed shapes graphs (every core parameter with wrong node kinds/datatypes, malformed lists/paths, bad regex, broken or misplaced SPARQL, dangling references, malformed rules/functions/targets/expressions) x options, randomly damaged well-formed shapes graphs, and the same causes through `python -m pyshacl`.",
+   note="Trusted: Coq kernel + vm_compute; translators T3, T4, T5, T6; the list of internal guards in coq/Mini/Raises.v (each with its reason); the dispatch model of coq/Mini/Cli.v (checked against cli.main() run in-process with 21 exception classes). The former findings (cyclic rdf:rest -> rdflib ValueError; 1500-long subclass chain -> RecursionError in rdflib) are repaired in /repo and recorded as fixed. "
         "Holds after fix commits 10d6351 (CLI), e7b54c1 (SPARQL text), bf69731, a8b486e, 6a6c2c7, d5fb213, 405affd and the sh:namespace fix in /repo.",
-   technique="translation of the CLI handler table, the closure loops and the list check + Coq proofs (except-dispatch on MROs for all exception classes; loop invariants) + enumeration of failure causes through API and CLI on /repo",
+   technique="translation of the CLI handler table, the closure loops, the list check and the census of raise statements + Coq proofs (except-dispatch on MROs for all exception classes; loop invariants; census decided over the generated tables) + enumeration of failure causes through API and CLI on /repo",
    ref="4 (C16)"),
 })
 CLAIMED.update({
@@ -178,7 +179,7 @@ CLAIMED.update({
 CLAIMED.update({
  "C09": dict(
    text="PARTIAL by design. Proved for the evaluator model: validating the shapes in any other order (the iteration order of the set of shapes) gives the same verdict and a permutation of the results (for any environment, data, options without abort_on_first); the environment is a look-up table whose order is immaterial when shape identifiers are distinct; "
-        "a pick of an arbitrary element from a singleton set is choice-independent; the subclass closures generated from pyshacl/rdfutil/closure.py (Tie A) return the same node set for any two listings of the same triples. NOT a theorem: independence of the real code from triple insertion order, blank-node labels, prefix bindings and PYTHONHASHSEED. That is decided by a multi-process differential: every case is validated in a baseline process and in further processes with other hash seeds, shuffled insertion order, consistently relabelled blank nodes and other prefix bindings; "
+        "a pick of an arbitrary element from a singleton set is choice-independent; the subclass closures generated from pyshacl/rdfutil/closure.py (Tie A) return the same node set for any two listings of the same triples; the member order of sh:and / sh:or / sh:xone lists is immaterial; focus nodes, the value nodes of any well-formed path and the reports of every core component are the same for two listings (permutations, repetitions) of the same triples - corollaries of the C02 / C03 / C01 correctness theorems. NOT a theorem: independence of the real code from blank-node labels, prefix bindings and PYTHONHASHSEED, and from triple insertion order through the rest of the pipeline. That is decided by a multi-process differential: every case is validated in a baseline process and in further processes with other hash seeds, shuffled insertion order, consistently relabelled blank nodes and other prefix bindings; "
         "verdict, result count of the text and the multiset of results (blank nodes named by their descriptions, nested details included) must be equal. Families: nested shapes, all core components, SPARQL constraints/components, rule sets with distinct sh:order through shacl_rules() and validate(advanced).",
    note=BASE_NOTE + "The order theorem is tied to /repo by the model-vs-implementation correspondence run with shuffled shape order. Default-message wording is not compared (the property allows its order to vary).",
    technique="Coq proof (permutation invariance of the shape loop) + vm_compute correspondence + multi-process hash-seed / permutation / relabelling differential on /repo",
